@@ -230,6 +230,7 @@ type c08Run_ struct {
 	RF      bool         `json:"reader_from,omitempty"`   // the underlying writer also implements io.ReaderFrom
 	Nested  bool         `json:"nested_router,omitempty"` // the main handler hands the request to a second rux router, whose handler performs the main operations
 	Hj      bool         `json:"after_hijacked_request,omitempty"` // the router served a request whose handler hijacked its connection right before
+	WS      bool         `json:"websocket_upgrade_headers,omitempty"` // the request carries "Connection: upgrade" and "Upgrade: websocket" (no upgrade takes place)
 }
 
 // recWHJ is a recording writer that can be hijacked
@@ -326,6 +327,11 @@ func (h *c08Harness) exec(run *c08Run_) (w *recW, length, status int, sampled bo
 	}
 	if run.Hj {
 		_ = try(func() { h.r.ServeHTTP(recWHJ{&recW{h: http.Header{}}}, httptest.NewRequest("GET", "/hj", nil)) })
+	}
+	h.req.Header = http.Header{}
+	if run.WS {
+		h.req.Header.Set("Connection", "keep-alive, Upgrade")
+		h.req.Header.Set("Upgrade", "websocket")
 	}
 	pv = try(func() { h.r.ServeHTTP(under, h.req) })
 	return w, h.length, h.status, h.sampled, pv
@@ -603,6 +609,9 @@ func c08RunCase(c c08Case, st *fw.Stats) []fw.Viol {
 			try1(c08Run_{Ops: ops, I: d / 2, J: d, Redisp: true})
 			// ... right after the router served a request whose handler hijacked its connection
 			try1(c08Run_{Ops: ops, I: 0, J: d, Hj: true})
+			// ... for a request that carries websocket-upgrade headers (which nobody acts upon)
+			try1(c08Run_{Ops: ops, I: 0, J: d, WS: true})
+			try1(c08Run_{Ops: ops, I: d / 2, J: d, WS: true})
 			// ... with the main handler's operations performed by a second router mounted inside it
 			try1(c08Run_{Ops: ops, I: 0, J: d, Nested: true})
 			try1(c08Run_{Ops: ops, I: d / 2, J: d, Nested: true})
@@ -682,7 +691,7 @@ func c08Gen(tier string, emit func(c08Case)) {
 var c08Spec = fw.Spec[c08Case]{
 	ID:    "C08",
 	Level: "model_checking",
-	Rule: "depth-bounded exhaustive search: ALL operation sequences of length <=4 (thorough 6) over 21 operations {SetStatus(-1,0,200,304,201,404,500,204,103,100), SetHeader, Write(\"\"), Write(\"ab\"), Flush, http.Error(418), Redirect(302), Text(201), Text(200), Context.WriteString, io.WriteString(c.Resp), Stream(203)} x every split of the sequence over middleware-before-Next / main handler / middleware-after-Next (also with the tail run by the OnError hook, with a HandleContext re-dispatch, right after a request that hijacked its connection, and on an underlying writer implementing io.ReaderFrom) x every assignment of <=2 non-default answers (short write, error) to the underlying writes (every split up to length 3 (4), 4 representative splits plus OnError / re-dispatch / ReaderFrom variants at length 4 (5), <=1 fault at length 6 in the thorough tier); " +
+	Rule: "depth-bounded exhaustive search: ALL operation sequences of length <=4 (thorough 6) over 21 operations {SetStatus(-1,0,200,304,201,404,500,204,103,100), SetHeader, Write(\"\"), Write(\"ab\"), Flush, http.Error(418), Redirect(302), Text(201), Text(200), Context.WriteString, io.WriteString(c.Resp), Stream(203)} x every split of the sequence over middleware-before-Next / main handler / middleware-after-Next (also with the tail run by the OnError hook, with a HandleContext re-dispatch, right after a request that hijacked its connection, for a request carrying websocket-upgrade headers, and on an underlying writer implementing io.ReaderFrom) x every assignment of <=2 non-default answers (short write, error) to the underlying writes (every split up to length 3 (4), 4 representative splits plus OnError / re-dispatch / ReaderFrom variants at length 4 (5), <=1 fault at length 6 in the thorough tier); " +
 		"plus the requests the router answers by itself (default and silent custom 404 / 405 responders, the body-less OPTIONS reply, do-nothing handlers) on all 384 combinations of 9 router settings; " +
 		"oracle = 20-line writer specification compared with the complete event log of a recording ResponseWriter+Flusher; non-trivial = sequence containing a write, flush or helper",
 	Assume: []string{"Text (WriteBytes) is documented to panic when the underlying write fails; after such a panic only the log so far is compared", "Length() is compared once a header was committed"},
